@@ -369,7 +369,7 @@ Proof.
       destruct Hc; subst cls; [discriminate V2|]. cbn [vrhs] in V2. destruct (consts_canon_back l V2) as [_ B].
       cbn [sem_pt sv_pt rt_pt a_rt]. rewrite S1, W2, S2, B, Ty. repeat split; reflexivity. }
   destruct cls; destruct rhs as [v q|t|z|f|b|v|v|l]; cbn [rhs_ok] in Ar;
-    try discriminate Ar;
+    try discriminate Ar; try (cbn [const_ok not_bool is_string andb] in Ar; rewrite ?andb_false_r in Ar; discriminate Ar);
     try (destruct (toks_of_consts l) as [ts|] eqn:Et; [|discriminate E];
          rewrite (toks_of_consts_ok l Ar) in Et; injection Et as Et; subst ts; injection E as Ep;
          apply (SetCase l eq_refl Ar (eq_sym Ep)); auto).
@@ -385,7 +385,7 @@ Proof.
   all: rewrite Pc; cbn [toks_of].
   all: split; [cbn [wf_pt]; rewrite Wp;
                first [ rewrite (kinds_primitive _ _ K); reflexivity
-                     | rewrite (kinds_orderable _ _ I K); reflexivity
+                     | match type of K with kind_in (const_tok ?c) _ = _ => rewrite (kinds_orderable c _ I K) end; reflexivity
                      | rewrite (is_string_kind _ Ho (proj2 (proj1 (andb_true_iff _ _) Ar))); reflexivity ]|].
   all: split; [cbn [yield_pt cls_operator strop_tok]; rewrite Yp; reflexivity|].
   all: split; [cbn [mc_pt ma ma_op m_order_op m_strop tk t_EQ t_GT t_LT t_GE t_LE tkind_eqb negb xorb]; rewrite Mp, Mc;
@@ -394,5 +394,597 @@ Proof.
   all: intros V; cbn [vexpr] in V; apply andb_true_iff in V; destruct V as [V1 V2]; destruct (VP V1) as [S1 S2];
        cbn [vrhs] in V2; apply andb_true_iff in V2; destruct V2 as [_ V2];
        cbn [sem_pt sv_pt rt_pt a_rt order_cls strop_cls tk t_EQ t_GT t_LT t_GE t_LE tkind_eqb negb xorb];
-       rewrite S1, S2, Ty, (const_canon_back _ Ho V2); try rewrite S; repeat split; reflexivity.
+       rewrite S1, S2, Ty, (const_canon_back _ Ho V2); try rewrite S; repeat split; try reflexivity; destruct neg; reflexivity.
+Qed.
+
+(* ------------------------------------------------------------------ *)
+(** * Chains of operands *)
+
+Lemma as_cmp_some : forall x c, as_cmp (unv x) = Some c -> unv x = Some (UCmp c).
+Proof. intros x c H. destruct (unv x) as [[c'|o]|]; cbn in H; inversion H; reflexivity. Qed.
+Lemma as_obs_some : forall x o, as_obs (unv x) = Some o -> unv x = Some (UObs o).
+Proof. intros x o H. destruct (unv x) as [[c'|o']|]; cbn in H; inversion H; reflexivity. Qed.
+
+Lemma chain_and_good : forall xs l0 p0 r,
+  Forall PGood xs -> forallb aprint xs = true ->
+  chain_and (CAnd l0 p0) (map (fun x => as_cmp (unv x)) xs) = Some r ->
+  (wf_and (CAnd l0 p0) = true -> wf_and r = true) /\
+  yield_and r = yield_and (CAnd l0 p0) ++ flat_map (fun y => t_AND :: toks_of (pr y)) xs /\
+  mc_and_list r = mc_and_list (CAnd l0 p0) ++ map ma xs /\
+  (exists l p, r = CAnd l p) /\
+  (forallb vexpr xs = true ->
+     (sem_and (CAnd l0 p0) = true -> sem_and r = true) /\
+     sv_and_ops r = sv_and_ops (CAnd l0 p0) ++ xs /\ rt_and r = rt_and (CAnd l0 p0)).
+Proof.
+  induction xs as [|x xs IH]; intros l0 p0 r HF HA HC.
+  - cbn [map chain_and] in HC. inversion HC; subst r. cbn [flat_map map]. rewrite !app_nil_r.
+    repeat split; try tauto. exists l0, p0. reflexivity.
+  - inversion HF as [|? ? Hx HF']; subst. cbn [forallb] in HA. apply andb_true_iff in HA. destruct HA as [Ax Axs].
+    cbn [map chain_and] in HC. destruct (as_cmp (unv x)) as [c|] eqn:Ec; [|discriminate].
+    destruct (lift_pt c) as [p|] eqn:El; [|discriminate]. apply lift_pt_facts in El. subst c.
+    apply as_cmp_some in Ec. destruct (Hx _ Ec Ax) as [G1 [G2 [G3 [_ [_ G6]]]]].
+    cbn [u_wf u_yield u_meaning ac_wf ac_yield ac_meaning] in G1, G2, G3.
+    destruct (IH (CAnd l0 p0) p r HF' Axs HC) as [I1 [I2 [I3 [I4 I5]]]].
+    split; [intros W; apply I1; cbn [wf_and] in W |- *; rewrite W, G1; reflexivity|].
+    split; [rewrite I2; cbn [yield_and flat_map]; rewrite G2, <- !app_assoc; reflexivity|].
+    split; [rewrite I3; cbn [mc_and_list map]; rewrite G3, <- !app_assoc; reflexivity|].
+    split; [exact I4|].
+    intros V. cbn [forallb] in V. apply andb_true_iff in V. destruct V as [Vx Vxs].
+    destruct (G6 Vx) as [S1 [S2 _]]. cbn [u_sem u_sv ac_sem ac_sv] in S1, S2.
+    destruct (I5 Vxs) as [J1 [J2 J3]].
+    split; [intros Sm; apply J1; cbn [sem_and] in Sm |- *; rewrite Sm, S1; reflexivity|].
+    split; [rewrite J2; cbn [sv_and_ops]; rewrite S2, <- !app_assoc; reflexivity|].
+    rewrite J3. reflexivity.
+Qed.
+
+Lemma chain_or_good : forall xs l0 a0 r,
+  Forall PGood xs -> forallb aprint xs = true ->
+  chain_or (COr l0 a0) (map (fun x => as_cmp (unv x)) xs) = Some r ->
+  (wf_or (COr l0 a0) = true -> wf_or r = true) /\
+  yield_or r = yield_or (COr l0 a0) ++ flat_map (fun y => t_OR :: toks_of (pr y)) xs /\
+  mc_or_list r = mc_or_list (COr l0 a0) ++ map ma xs /\
+  (exists l a, r = COr l a) /\
+  (forallb vexpr xs = true ->
+     (sem_or (COr l0 a0) = true -> sem_or r = true) /\
+     sv_or_ops r = sv_or_ops (COr l0 a0) ++ xs /\ rt_or r = rt_or (COr l0 a0)).
+Proof.
+  induction xs as [|x xs IH]; intros l0 a0 r HF HA HC.
+  - cbn [map chain_or] in HC. inversion HC; subst r. cbn [flat_map map]. rewrite !app_nil_r.
+    repeat split; try tauto. exists l0, a0. reflexivity.
+  - inversion HF as [|? ? Hx HF']; subst. cbn [forallb] in HA. apply andb_true_iff in HA. destruct HA as [Ax Axs].
+    cbn [map chain_or] in HC. destruct (as_cmp (unv x)) as [c|] eqn:Ec; [|discriminate].
+    destruct (lift_and c) as [a|] eqn:El; [|discriminate].
+    apply as_cmp_some in Ec. destruct (Hx _ Ec Ax) as [G1 [G2 [G3 [G4 [_ G6]]]]].
+    cbn [u_wf u_yield u_meaning u_inv] in G1, G2, G3, G4.
+    destruct (lift_and_facts c a G4 El) as [L1 [L2 [L3 [L4 [L5 L6]]]]].
+    destruct (IH (COr l0 a0) a r HF' Axs HC) as [I1 [I2 [I3 [I4 I5]]]].
+    split; [intros W; apply I1; cbn [wf_or] in W |- *; rewrite W, L2, G1; reflexivity|].
+    split; [rewrite I2; cbn [yield_or flat_map]; rewrite L1, G2, <- !app_assoc; reflexivity|].
+    split; [rewrite I3; cbn [mc_or_list map]; fold (mc_and a); rewrite L3, G3, <- !app_assoc; reflexivity|].
+    split; [exact I4|].
+    intros V. cbn [forallb] in V. apply andb_true_iff in V. destruct V as [Vx Vxs].
+    destruct (G6 Vx) as [S1 [S2 _]]. cbn [u_sem u_sv] in S1, S2.
+    destruct (I5 Vxs) as [J1 [J2 J3]].
+    split; [intros Sm; apply J1; cbn [sem_or] in Sm |- *; rewrite Sm, L5, S1; reflexivity|].
+    split; [rewrite J2; cbn [sv_or_ops]; fold (sv_and a); rewrite L4, S2, <- !app_assoc; reflexivity|].
+    rewrite J3. reflexivity.
+Qed.
+
+Lemma chain_oand_good : forall xs l0 o0 r,
+  Forall PGood xs -> forallb aprint xs = true ->
+  chain_oand (OAnd l0 o0) (map (fun x => as_obs (unv x)) xs) = Some r ->
+  (wf_oand (OAnd l0 o0) = true -> wf_oand r = true) /\
+  yield_oand r = yield_oand (OAnd l0 o0) ++ flat_map (fun y => t_AND :: toks_of (pr y)) xs /\
+  mc_oand_list r = mc_oand_list (OAnd l0 o0) ++ map ma xs /\
+  (exists l o, r = OAnd l o) /\ (xs = [] -> r = OAnd l0 o0).
+Proof.
+  induction xs as [|x xs IH]; intros l0 o0 r HF HA HC.
+  - cbn [map chain_oand] in HC. inversion HC; subst r. cbn [flat_map map]. rewrite !app_nil_r.
+    repeat split; try tauto. exists l0, o0. reflexivity.
+  - inversion HF as [|? ? Hx HF']; subst. cbn [forallb] in HA. apply andb_true_iff in HA. destruct HA as [Ax Axs].
+    cbn [map chain_oand] in HC. destruct (as_obs (unv x)) as [c|] eqn:Ec; [|discriminate].
+    destruct (lift_obs c) as [o|] eqn:El; [|discriminate]. apply lift_obs_facts in El. subst c.
+    apply as_obs_some in Ec. destruct (Hx _ Ec Ax) as [G1 [G2 [G3 _]]].
+    cbn [u_wf u_yield u_meaning ao_wf ao_yield ao_meaning] in G1, G2, G3.
+    destruct (IH (OAnd l0 o0) o r HF' Axs HC) as [I1 [I2 [I3 [I4 _]]]].
+    split; [intros W; apply I1; cbn [wf_oand] in W |- *; rewrite W, G1; reflexivity|].
+    split; [rewrite I2; cbn [yield_oand flat_map]; rewrite G2, <- !app_assoc; reflexivity|].
+    split; [rewrite I3; cbn [mc_oand_list map]; rewrite G3, <- !app_assoc; reflexivity|].
+    split; [exact I4|discriminate].
+Qed.
+
+Lemma chain_oor_good : forall xs l0 a0 r,
+  Forall PGood xs -> forallb aprint xs = true ->
+  chain_oor (OOr l0 a0) (map (fun x => as_obs (unv x)) xs) = Some r ->
+  (wf_oor (OOr l0 a0) = true -> wf_oor r = true) /\
+  yield_oor r = yield_oor (OOr l0 a0) ++ flat_map (fun y => t_OR :: toks_of (pr y)) xs /\
+  mc_oor_list r = mc_oor_list (OOr l0 a0) ++ map ma xs /\
+  (exists l a, r = OOr l a) /\ (xs = [] -> r = OOr l0 a0).
+Proof.
+  induction xs as [|x xs IH]; intros l0 a0 r HF HA HC.
+  - cbn [map chain_oor] in HC. inversion HC; subst r. cbn [flat_map map]. rewrite !app_nil_r.
+    repeat split; try tauto. exists l0, a0. reflexivity.
+  - inversion HF as [|? ? Hx HF']; subst. cbn [forallb] in HA. apply andb_true_iff in HA. destruct HA as [Ax Axs].
+    cbn [map chain_oor] in HC. destruct (as_obs (unv x)) as [c|] eqn:Ec; [|discriminate].
+    destruct (lift_oand c) as [a|] eqn:El; [|discriminate].
+    apply as_obs_some in Ec. destruct (Hx _ Ec Ax) as [G1 [G2 [G3 [G4 _]]]].
+    cbn [u_wf u_yield u_meaning u_inv] in G1, G2, G3, G4.
+    destruct (lift_oand_facts c a G4 El) as [L1 [L2 [L3 _]]].
+    destruct (IH (OOr l0 a0) a r HF' Axs HC) as [I1 [I2 [I3 [I4 _]]]].
+    split; [intros W; apply I1; cbn [wf_oor] in W |- *; rewrite W, L2, G1; reflexivity|].
+    split; [rewrite I2; cbn [yield_oor flat_map]; rewrite L1, G2, <- !app_assoc; reflexivity|].
+    split; [rewrite I3; cbn [mc_oor_list map]; rewrite L3, G3, <- !app_assoc; reflexivity|].
+    split; [exact I4|discriminate].
+Qed.
+
+Lemma chain_fb_good : forall xs l0 a0 r,
+  Forall PGood xs -> forallb aprint xs = true ->
+  chain_fb (OFb l0 a0) (map (fun x => as_obs (unv x)) xs) = Some r ->
+  (wf_fb (OFb l0 a0) = true -> wf_fb r = true) /\
+  yield_fb r = yield_fb (OFb l0 a0) ++ flat_map (fun y => t_FOLLOWEDBY :: toks_of (pr y)) xs /\
+  mc_fb_list r = mc_fb_list (OFb l0 a0) ++ map ma xs /\
+  (exists l a, r = OFb l a) /\ (xs = [] -> r = OFb l0 a0).
+Proof.
+  induction xs as [|x xs IH]; intros l0 a0 r HF HA HC.
+  - cbn [map chain_fb] in HC. inversion HC; subst r. cbn [flat_map map]. rewrite !app_nil_r.
+    repeat split; try tauto. exists l0, a0. reflexivity.
+  - inversion HF as [|? ? Hx HF']; subst. cbn [forallb] in HA. apply andb_true_iff in HA. destruct HA as [Ax Axs].
+    cbn [map chain_fb] in HC. destruct (as_obs (unv x)) as [c|] eqn:Ec; [|discriminate].
+    destruct (lift_oor c) as [a|] eqn:El; [|discriminate].
+    apply as_obs_some in Ec. destruct (Hx _ Ec Ax) as [G1 [G2 [G3 [G4 _]]]].
+    cbn [u_wf u_yield u_meaning u_inv] in G1, G2, G3, G4.
+    destruct (lift_oor_facts c a G4 El) as [L1 [L2 [L3 _]]].
+    destruct (IH (OFb l0 a0) a r HF' Axs HC) as [I1 [I2 [I3 [I4 _]]]].
+    split; [intros W; apply I1; cbn [wf_fb] in W |- *; rewrite W, L2, G1; reflexivity|].
+    split; [rewrite I2; cbn [yield_fb flat_map]; rewrite L1, G2, <- !app_assoc; reflexivity|].
+    split; [rewrite I3; cbn [mc_fb_list map]; rewrite L3, G3, <- !app_assoc; reflexivity|].
+    split; [exact I4|discriminate].
+Qed.
+
+(* ------------------------------------------------------------------ *)
+(** * Qualifiers *)
+
+Lemma nonneg_tok : forall z, (0 <=? z)%Z = true -> kind_in (const_tok (CInt z)) [KIntPos] = true.
+Proof.
+  intros z H. apply Z.leb_le in H. unfold const_tok. cbn [pr_const]. fold (int_tok z).
+  destruct (int_tok_kind z) as [_ O]. apply kind_in_make; [|exact O].
+  unfold int_tok. cbn [tk]. destruct z as [|p|p]; [reflexivity| |lia].
+  cbn [dec_of_Z]. pose proof (dec_of_N_head (Npos p)) as Hh. destruct (dec_of_N (Npos p)) as [|c r]; [contradiction|].
+  destruct (is_digit_not_sign c Hh) as [A _]. unfold num_kind. rewrite A. reflexivity.
+Qed.
+
+Lemma posfloat_tok : forall f, const_ok (CFloat f) = true -> f_neg f = false -> kind_in (const_tok (CFloat f)) [KFloatPos] = true.
+Proof.
+  intros f H Hn. destruct (const_token (CFloat f) H) as [K _]. unfold kind_in in K |- *.
+  apply andb_true_iff in K. destruct K as [K1 K2]. rewrite K2, andb_true_r.
+  unfold const_tok in *. cbn [pr_const tk] in *. unfold print_float. rewrite Hn. cbn [List.app].
+  cbn [const_ok] in H. apply andb_true_iff in H. destruct H as [Hf Hp]. apply fnorm_b_spec in Hf. destruct Hf as [Hi _].
+  rewrite Hp. pose proof (or0_head_digit (f_ip f) (46 :: or0 (f_fp f)) Hi) as Hh.
+  destruct (or0 (f_ip f) ++ 46 :: or0 (f_fp f)) as [|c r]; [contradiction|].
+  destruct (is_digit_not_sign c Hh) as [A _]. unfold num_kind. rewrite A. reflexivity.
+Qed.
+
+Lemma qual_good : forall q q', aqual_ok q = true -> unv_qual q = Some q' ->
+  wf_qual q' = true /\ yield_qual q' = toks_of (pr_qual q) /\ mc_qual q' = ma_qual q /\
+  sem_qual q' = true /\ sv_qual q' = q.
+Proof.
+  intros [c|c|a b] q' H U; cbn [aqual_ok unv_qual] in *.
+  - destruct c as [| |z| | | | |]; try discriminate H. cbn [nonneg_int] in H.
+    rewrite (tok_of_const_leaf (CInt z) eq_refl) in U. inversion U; subst q'.
+    destruct (const_token (CInt z) eq_refl) as [_ [_ V]].
+    cbn [wf_qual yield_qual mc_qual sem_qual sv_qual pr_qual ma_qual].
+    rewrite (nonneg_tok z H), (const_meaning (CInt z) eq_refl), V, !toks_of_app, (pr_const_leaf (CInt z) eq_refl). repeat split; reflexivity.
+  - apply orb_true_iff in H. destruct H as [H|H].
+    + destruct c as [| |z| | | | |]; try discriminate H. cbn [nonneg_int] in H.
+      rewrite (tok_of_const_leaf (CInt z) eq_refl) in U. inversion U; subst q'.
+      destruct (const_token (CInt z) eq_refl) as [_ [_ V]].
+      cbn [wf_qual yield_qual mc_qual sem_qual sv_qual pr_qual ma_qual].
+      rewrite (kind_in_weaken _ [KIntPos] [KIntPos; KFloatPos] (nonneg_tok z H)),
+              (const_meaning (CInt z) eq_refl), V, !toks_of_app, (pr_const_leaf (CInt z) eq_refl);
+        [repeat split; reflexivity|].
+      intros k. destruct k; cbn; intros E; try discriminate; reflexivity.
+    + destruct c as [| | |f| | | |]; try discriminate H. cbn [pos_float] in H.
+      apply andb_true_iff in H. destruct H as [Ho Hn]. apply negb_true_iff in Hn.
+      rewrite (tok_of_const_leaf (CFloat f) Ho) in U. inversion U; subst q'.
+      destruct (const_token (CFloat f) Ho) as [_ [_ V]].
+      cbn [wf_qual yield_qual mc_qual sem_qual sv_qual pr_qual ma_qual].
+      rewrite (kind_in_weaken _ [KFloatPos] [KIntPos; KFloatPos] (posfloat_tok f Ho Hn)),
+              (const_meaning (CFloat f) Ho), V, !toks_of_app, (pr_const_leaf (CFloat f) Ho);
+        [repeat split; reflexivity|].
+      intros k. destruct k; cbn; intros E; try discriminate; reflexivity.
+  - apply andb_true_iff in H. destruct H as [H Hb2]. apply andb_true_iff in H. destruct H as [H Hb1].
+    apply andb_true_iff in H. destruct H as [Ha1 Ha2].
+    destruct a as [|ta| | | | | |]; try discriminate Ha2. destruct b as [|tb| | | | | |]; try discriminate Hb2.
+    rewrite (tok_of_const_leaf _ Ha1), (tok_of_const_leaf _ Hb1) in U. inversion U; subst q'.
+    destruct (const_token _ Ha1) as [Ka [Sa Va]]. destruct (const_token _ Hb1) as [Kb [Sb Vb]].
+    cbn [wf_qual yield_qual mc_qual sem_qual sv_qual pr_qual ma_qual kinds_of] in *.
+    rewrite Ka, Kb, Sa, Sb, Va, Vb, (const_meaning _ Ha1), (const_meaning _ Hb1), !toks_of_app,
+            (pr_const_leaf _ Ha1), (pr_const_leaf _ Hb1). repeat split; reflexivity.
+Qed.
+
+(* ------------------------------------------------------------------ *)
+(** * Small facts used by the main induction *)
+
+Lemma flat_map_map : forall (A B C : Type) (g : A -> B) (f : B -> list C) l,
+  flat_map f (map g l) = flat_map (fun x => f (g x)) l.
+Proof. intros A B C g f l. induction l as [|x r IH]; [reflexivity|]. cbn [map flat_map]. rewrite IH. reflexivity. Qed.
+
+Lemma mc_and_list_nonnil : forall a, mc_and_list a <> [].
+Proof. destruct a; cbn; [discriminate|]. intros H. apply app_eq_nil in H. destruct H; discriminate. Qed.
+Lemma mc_or_list_nonnil : forall o, mc_or_list o <> [].
+Proof. destruct o; cbn; [discriminate|]. intros H. apply app_eq_nil in H. destruct H; discriminate. Qed.
+Lemma mc_oand_list_nonnil : forall a, mc_oand_list a <> [].
+Proof. destruct a; cbn; [discriminate|]. intros H. apply app_eq_nil in H. destruct H; discriminate. Qed.
+Lemma mc_oor_list_nonnil : forall a, mc_oor_list a <> [].
+Proof. destruct a; cbn; [discriminate|]. intros H. apply app_eq_nil in H. destruct H; discriminate. Qed.
+Lemma mc_fb_list_nonnil : forall a, mc_fb_list a <> [].
+Proof. destruct a; cbn; [discriminate|]. intros H. apply app_eq_nil in H. destruct H; discriminate. Qed.
+
+Lemma one_or_two : forall (A : Type) (mk : list A -> A) l x r, l <> [] -> one_or mk (l ++ x :: r) = mk (l ++ x :: r).
+Proof. intros A mk l x r H. destruct l as [|a [|b l']]; [congruence| |]; reflexivity. Qed.
+
+Lemma one_or_snoc : forall (A : Type) (mk : list A -> A) l x, l <> [] -> one_or mk (l ++ [x]) = mk (l ++ [x]).
+Proof. intros. apply one_or_two. assumption. Qed.
+
+Lemma mc_pt_not_bool : forall p, match mc_pt p with MBoolOp _ _ => False | _ => True end.
+Proof. destruct p; exact I. Qed.
+Lemma mc_obs_not_obsop : forall o, match mc_obs o with MObsOp _ _ => False | _ => True end.
+Proof. destruct o; exact I. Qed.
+
+(* unv of an observation-level node is never a comparison-level tree, and conversely *)
+Lemma unv_cmp_shape : forall x c, unv x = Some (UCmp c) ->
+  match x with EObs _ | ECompound _ _ | EQualified _ _ => False | _ => True end.
+Proof.
+  intros x c H. destruct x as [cls lhs rhs neg|isand ops|y|op ops|y|y q]; try exact I; cbn [unv] in H.
+  - destruct (as_cmp (unv y)); discriminate.
+  - destruct (map (fun x => as_obs (unv x)) ops) as [|[f|] [|s r]]; try discriminate.
+    destruct op.
+    + destruct (lift_oand f); [|discriminate]. destruct (chain_oand _ _); discriminate.
+    + destruct (lift_oor f); [|discriminate]. destruct (chain_oor _ _); discriminate.
+    + destruct (chain_fb _ _); discriminate.
+  - destruct (as_obs (unv y)); [|discriminate]. destruct (unv_qual q); [|discriminate]. destruct (lift_obs _); discriminate.
+Qed.
+
+(* ------------------------------------------------------------------ *)
+(** * The cases of the main induction *)
+
+Lemma ucmp_level : forall c, is_cmp_level (u_level (UCmp c)) = true.
+Proof. intros [p|a|o]; reflexivity. Qed.
+Lemma uobs_level : forall o, is_cmp_level (u_level (UObs o)) = false.
+Proof. intros [x|x|x|x]; reflexivity. Qed.
+
+Lemma paren_good : forall x, PGood x -> PGood (EParen x).
+Proof.
+  intros x IH u U A. cbn [unv] in U. cbn [aprint] in A.
+  destruct (unv x) as [[c|o]|] eqn:E; [| |discriminate]; inversion U; subst u; clear U;
+    destruct (IH _ E A) as [G1 [G2 [G3 [G4 [G5 G6]]]]];
+    cbn [u_wf u_yield u_meaning u_inv u_sem u_sv u_rt] in G1, G2, G3, G4, G6.
+  - destruct (lift_or_facts c G4) as [L1 [L2 [L3 [L4 [L5 L6]]]]].
+    unfold Good. cbn [u_wf u_yield u_meaning u_inv u_level u_sem u_sv u_rt ac_wf ac_yield ac_meaning ac_inv ac_sem ac_sv ac_rt
+                       wf_pt yield_pt mc_pt sem_pt sv_pt rt_pt pr ma level vexpr a_rt].
+    fold (mc_or (lift_or c)). fold (sv_or (lift_or c)).
+    rewrite L1, L2, L3, L4, L5, L6, G1, G2, G3, !toks_of_app, <- G5, (ucmp_level c).
+    repeat split; try reflexivity;
+      match goal with V : vexpr _ = true |- _ => destruct (G6 V) as [S1 [S2 S3]] end;
+      try rewrite S1; try rewrite S2; try rewrite S3; reflexivity.
+  - destruct (lift_fb_facts o G4) as [L1 [L2 [L3 [L4 L5]]]].
+    unfold Good. cbn [u_wf u_yield u_meaning u_inv u_level u_sem u_sv u_rt ao_wf ao_yield ao_meaning ao_inv ao_sem ao_sv
+                       wf_obs yield_obs mc_obs sem_obs sv_obs pr ma level vexpr a_rt].
+    rewrite L1, L2, L3, L4, L5, G1, G2, G3, !toks_of_app, <- G5, (uobs_level o).
+    repeat split; try reflexivity;
+      match goal with V : vexpr _ = true |- _ => destruct (G6 V) as [S1 [S2 S3]] end;
+      try rewrite S1; try rewrite S2; try exact S3; reflexivity.
+Qed.
+
+Lemma obs_good : forall x, PGood x -> PGood (EObs x).
+Proof.
+  intros x IH u U A. cbn [unv] in U. cbn [aprint] in A.
+  destruct (as_cmp (unv x)) as [c|] eqn:E; [|discriminate]. inversion U; subst u; clear U.
+  apply as_cmp_some in E. pose proof (unv_cmp_shape x c E) as Sh.
+  destruct (IH _ E A) as [G1 [G2 [G3 [G4 [G5 G6]]]]].
+  cbn [u_wf u_yield u_meaning u_inv u_sem u_sv u_rt] in G1, G2, G3, G4, G6.
+  destruct (lift_or_facts c G4) as [L1 [L2 [L3 [L4 [L5 L6]]]]].
+  assert (P : toks_of (pr (EObs x)) = [t_LBRACK] ++ toks_of (pr x) ++ [t_RBRACK]).
+  { destruct x; try contradiction; cbn [pr]; rewrite !toks_of_app; reflexivity. }
+  assert (M : ma (EObs x) = MObs (ma x)) by (destruct x; try contradiction; reflexivity).
+  unfold Good. rewrite P, M.
+  cbn [u_wf u_yield u_meaning u_inv u_level u_sem u_sv u_rt ao_wf ao_yield ao_meaning ao_inv ao_sem ao_sv
+       wf_obs yield_obs mc_obs sem_obs sv_obs level vexpr a_rt].
+  rewrite L1, L2, L3, L4, L5, G1, G2, G3.
+  repeat split; try reflexivity;
+    match goal with V : _ && _ = true |- _ => apply andb_true_iff in V; destruct V as [V _]; destruct (G6 V) as [S1 [S2 S3]] end;
+    try rewrite S1; try rewrite S2; reflexivity.
+Qed.
+
+Lemma toks_pr_qualified : forall x q, toks_of (pr (EQualified x q)) = toks_of (pr x) ++ toks_of (pr_qual q).
+Proof. intros x q. cbn [pr]. rewrite !toks_of_app. reflexivity. Qed.
+
+Lemma qualified_good : forall x q, PGood x -> PGood (EQualified x q).
+Proof.
+  intros x q IH u U A. cbn [unv] in U. cbn [aprint] in A. apply andb_true_iff in A. destruct A as [Ax Aq].
+  destruct (as_obs (unv x)) as [o|] eqn:E; [|discriminate].
+  destruct (unv_qual q) as [q'|] eqn:Eq; [|discriminate].
+  destruct (lift_obs o) as [o'|] eqn:El; [|discriminate]. inversion U; subst u; clear U.
+  apply lift_obs_facts in El. subst o. apply as_obs_some in E.
+  destruct (IH _ E Ax) as [G1 [G2 [G3 [G4 [G5 G6]]]]].
+  cbn [u_wf u_yield u_meaning u_inv u_sem u_sv u_rt ao_wf ao_yield ao_meaning ao_sem ao_sv] in G1, G2, G3, G4, G6.
+  destruct (qual_good q q' Aq Eq) as [Q1 [Q2 [Q3 [Q4 Q5]]]].
+  unfold Good. rewrite toks_pr_qualified.
+  cbn [u_wf u_yield u_meaning u_inv u_level u_sem u_sv u_rt ao_wf ao_yield ao_meaning ao_inv ao_sem ao_sv
+       wf_obs yield_obs mc_obs sem_obs sv_obs ma level vexpr a_rt].
+  rewrite G1, G2, G3, Q1, Q2, Q3, Q4, Q5.
+  repeat split; try reflexivity;
+    match goal with V : _ && _ = true |- _ => apply andb_true_iff in V; destruct V as [V _]; destruct (G6 V) as [S1 [S2 S3]] end;
+    try rewrite S1; try rewrite S2; reflexivity.
+Qed.
+
+Definition same_bool (isand : bool) (m : mexpr) : option (list mexpr) :=
+  match m with MBoolOp b xs => if Bool.eqb b isand then Some xs else None | _ => None end.
+Definition same_obs (op : obsop) (m : mexpr) : option (list mexpr) :=
+  match m with
+  | MObsOp o xs => if match o, op with OpAnd, OpAnd | OpOr, OpOr | OpFb, OpFb => true | _, _ => false end then Some xs else None
+  | _ => None
+  end.
+
+Lemma ma_bool : forall isand ops, ma (EBool isand ops) = MBoolOp isand (splice_first (same_bool isand) (map ma ops)).
+Proof. reflexivity. Qed.
+Lemma ma_cpd : forall op ops, ma (ECompound op ops) = MObsOp op (splice_first (same_obs op) (map ma ops)).
+Proof. reflexivity. Qed.
+
+Lemma splice_and : forall first a1 rest, ac_inv first -> lift_and first = Some a1 ->
+  splice_first (same_bool true) (ac_meaning first :: rest) = mc_and_list a1 ++ rest.
+Proof.
+  intros [p|a|o] a1 rest Hi Hl; cbn in Hl; inversion Hl; subst a1; cbn [ac_meaning splice_first].
+  - pose proof (mc_pt_not_bool p) as N. cbn [mc_and_list]. destruct (mc_pt p); try reflexivity. contradiction.
+  - destruct a as [p|l p]; [contradiction|]. unfold mc_and. cbn [mc_and_list].
+    rewrite (one_or_snoc _ (MBoolOp true) _ _ (mc_and_list_nonnil l)). reflexivity.
+Qed.
+
+Lemma splice_or : forall first rest, ac_inv first ->
+  splice_first (same_bool false) (ac_meaning first :: rest) = mc_or_list (lift_or first) ++ rest.
+Proof.
+  intros [p|a|o] rest Hi; cbn [ac_meaning splice_first lift_or mc_or_list].
+  - pose proof (mc_pt_not_bool p) as N. cbn [mc_and_list one_or]. destruct (mc_pt p); try reflexivity. contradiction.
+  - destruct a as [p|l p]; [contradiction|]. unfold mc_and. cbn [mc_and_list].
+    rewrite (one_or_snoc _ (MBoolOp true) _ _ (mc_and_list_nonnil l)). reflexivity.
+  - destruct o as [a|l a]; [contradiction|]. unfold mc_or. cbn [mc_or_list].
+    rewrite (one_or_snoc _ (MBoolOp false) _ _ (mc_or_list_nonnil l)). reflexivity.
+Qed.
+
+Lemma toks_pr_ops : forall t x1 x2 xs,
+  toks_of (sep_items [Sp; T t; Sp] (map pr (x1 :: x2 :: xs))) =
+  (toks_of (pr x1) ++ [t] ++ toks_of (pr x2)) ++ flat_map (fun y => t :: toks_of (pr y)) xs.
+Proof.
+  intros t x1 x2 xs. cbn [map]. rewrite toks_sep_op. cbn [flat_map]. rewrite flat_map_map, <- !app_assoc. reflexivity.
+Qed.
+
+Lemma level_pt_form : forall c x, u_level (UCmp c) = level x -> level_eqb (level x) LPt = true -> exists p, c = AC_pt p.
+Proof. intros [p|a|o] x H L; rewrite <- H in L; cbn in L; try discriminate. exists p. reflexivity. Qed.
+
+Lemma bool_good : forall isand ops, Forall PGood ops -> PGood (EBool isand ops).
+Proof.
+  intros isand ops HF u U A. cbn [unv] in U. cbn [aprint] in A.
+  destruct ops as [|x1 [|x2 xs]].
+  - discriminate U.
+  - cbn [map] in U. destruct (as_cmp (unv x1)); discriminate U.
+  - cbn [map] in U. destruct (as_cmp (unv x1)) as [first|] eqn:E1; [|discriminate U].
+    inversion HF as [|? ? H1 HF2]; subst. inversion HF2 as [|? ? H2 HFs]; subst.
+    cbn [forallb] in A. apply andb_true_iff in A. destruct A as [A1 A]. apply andb_true_iff in A. destruct A as [A2 As].
+    apply as_cmp_some in E1.
+    destruct (H1 _ E1 A1) as [F1 [F2 [F3 [F4 [F5 F6]]]]].
+    cbn [u_wf u_yield u_meaning u_inv u_sem u_sv u_rt] in F1, F2, F3, F4, F6.
+    destruct isand.
+    + (* AND *)
+      destruct (lift_and first) as [a1|] eqn:L1; [|discriminate U].
+      destruct (chain_and a1 _) as [r|] eqn:C; [|discriminate U]. inversion U; subst u; clear U.
+      cbn [chain_and] in C. destruct (as_cmp (unv x2)) as [c2|] eqn:E2; [|discriminate C].
+      destruct (lift_pt c2) as [p2|] eqn:L2; [|discriminate C]. apply lift_pt_facts in L2. subst c2.
+      apply as_cmp_some in E2.
+      destruct (H2 _ E2 A2) as [S1 [S2 [S3 [_ [S5 S6]]]]].
+      cbn [u_wf u_yield u_meaning u_inv u_sem u_sv u_rt ac_wf ac_yield ac_meaning ac_sem ac_sv ac_rt] in S1, S2, S3, S6.
+      destruct (lift_and_facts first a1 F4 L1) as [La1 [La2 [La3 [La4 [La5 La6]]]]].
+      destruct (chain_and_good xs a1 p2 r HFs As C) as [I1 [I2 [I3 [I4 I5]]]].
+      unfold Good. cbn [u_wf u_yield u_meaning u_inv u_level u_sem u_sv u_rt ac_wf ac_yield ac_meaning ac_sem ac_sv ac_rt level pr].
+      split; [apply I1; cbn [wf_and]; rewrite La2, F1, S1; reflexivity|].
+      split; [rewrite I2, toks_pr_ops; cbn [yield_and]; rewrite La1, F2, S2; reflexivity|].
+      split; [rewrite ma_bool; cbn [map]; rewrite <- F3, (splice_and first a1 _ F4 L1); unfold mc_and; rewrite I3;
+              cbn [mc_and_list]; rewrite S3, <- !app_assoc; cbn [List.app];
+              rewrite (one_or_two _ (MBoolOp true) _ _ _ (mc_and_list_nonnil a1)); reflexivity|].
+      split; [destruct I4 as [l [p Er]]; rewrite Er; exact I|].
+      split; [reflexivity|].
+      intros V. cbn [vexpr] in V. apply andb_true_iff in V. destruct V as [V Vrt]. apply andb_true_iff in V. destruct V as [Vx Vl].
+      cbn [forallb] in Vx, Vl. apply andb_true_iff in Vx. destruct Vx as [Vx1 Vx]. apply andb_true_iff in Vx. destruct Vx as [Vx2 Vxs].
+      apply andb_true_iff in Vl. destruct Vl as [Vl1 _].
+      destruct (level_pt_form first x1 F5 Vl1) as [p1 Ef]. subst first. cbn in L1. inversion L1; subst a1.
+      destruct (F6 Vx1) as [T1 [T2 T3]]. destruct (S6 Vx2) as [T4 [T5 T6]].
+      cbn [ac_sem ac_sv ac_rt] in T1, T2, T3.
+      destruct (I5 Vxs) as [J1 [J2 J3]].
+      split; [apply J1; cbn [sem_and]; rewrite T1, T4, T3, T6; exact Vrt|].
+      split; [unfold sv_and; rewrite J2; cbn [sv_and_ops List.app]; rewrite T2, T5; reflexivity|].
+      rewrite J3. cbn [rt_and a_rt]. rewrite T3, T6. reflexivity.
+    + (* OR *)
+      destruct (chain_or (lift_or first) _) as [r|] eqn:C; [|discriminate U]. inversion U; subst u; clear U.
+      cbn [chain_or] in C. destruct (as_cmp (unv x2)) as [c2|] eqn:E2; [|discriminate C].
+      destruct (lift_and c2) as [a2|] eqn:L2; [|discriminate C].
+      apply as_cmp_some in E2.
+      destruct (H2 _ E2 A2) as [S1 [S2 [S3 [S4 [S5 S6]]]]].
+      cbn [u_wf u_yield u_meaning u_inv u_sem u_sv u_rt] in S1, S2, S3, S4, S6.
+      destruct (lift_or_facts first F4) as [La1 [La2 [La3 [La4 [La5 La6]]]]].
+      destruct (lift_and_facts c2 a2 S4 L2) as [Lb1 [Lb2 [Lb3 [Lb4 [Lb5 Lb6]]]]].
+      destruct (chain_or_good xs (lift_or first) a2 r HFs As C) as [I1 [I2 [I3 [I4 I5]]]].
+      unfold Good. cbn [u_wf u_yield u_meaning u_inv u_level u_sem u_sv u_rt ac_wf ac_yield ac_meaning ac_sem ac_sv ac_rt level pr].
+      split; [apply I1; cbn [wf_or]; rewrite La2, Lb2, F1, S1; reflexivity|].
+      split; [rewrite I2, toks_pr_ops; cbn [yield_or]; rewrite La1, Lb1, F2, S2; reflexivity|].
+      split; [rewrite ma_bool; cbn [map]; rewrite <- F3, (splice_or first _ F4); unfold mc_or; rewrite I3;
+              cbn [mc_or_list]; fold (mc_and a2); rewrite Lb3, S3, <- !app_assoc; cbn [List.app];
+              rewrite (one_or_two _ (MBoolOp false) _ _ _ (mc_or_list_nonnil (lift_or first))); reflexivity|].
+      split; [destruct I4 as [l [a Er]]; rewrite Er; exact I|].
+      split; [reflexivity|].
+      intros V. cbn [vexpr] in V. apply andb_true_iff in V. destruct V as [V _]. apply andb_true_iff in V. destruct V as [Vx Vl].
+      cbn [forallb] in Vx, Vl. apply andb_true_iff in Vx. destruct Vx as [Vx1 Vx]. apply andb_true_iff in Vx. destruct Vx as [Vx2 Vxs].
+      apply andb_true_iff in Vl. destruct Vl as [Vl1 _].
+      destruct (F6 Vx1) as [T1 [T2 T3]]. destruct (S6 Vx2) as [T4 [T5 T6]].
+      destruct (I5 Vxs) as [J1 [J2 J3]].
+      assert (Fo : exists a, lift_or first = COrBase a /\ sv_or_ops (lift_or first) = [ac_sv first] /\ rt_and a = ac_rt first).
+      { destruct first as [p|a|o].
+        - exists (CAndBase p). repeat split.
+        - exists a. repeat split.
+        - exfalso. rewrite <- F5 in Vl1. discriminate Vl1. }
+      destruct Fo as [a0 [Fo1 [Fo2 Fo3]]].
+      split; [apply J1; cbn [sem_or]; rewrite La5, Lb5, T1, T4; reflexivity|].
+      split; [unfold sv_or; rewrite J2; cbn [sv_or_ops]; fold (sv_and a2); rewrite Fo2, Lb4, T2, T5; reflexivity|].
+      rewrite J3, Fo1. cbn [rt_or a_rt]. rewrite Fo3, Lb6, T3, T6. reflexivity.
+Qed.
+
+Lemma splice_oand : forall first a1 rest, ao_inv first -> lift_oand first = Some a1 ->
+  splice_first (same_obs OpAnd) (ao_meaning first :: rest) = mc_oand_list a1 ++ rest.
+Proof.
+  intros [o|a|a|a] a1 rest Hi Hl; cbn in Hl; inversion Hl; subst a1; cbn [ao_meaning splice_first].
+  - pose proof (mc_obs_not_obsop o) as N. cbn [mc_oand_list]. destruct (mc_obs o); try reflexivity. contradiction.
+  - destruct a as [o|l o]; [contradiction|]. cbn [mc_oand_list].
+    rewrite (one_or_snoc _ (MObsOp OpAnd) _ _ (mc_oand_list_nonnil l)). reflexivity.
+Qed.
+
+Lemma one_or_and_not : forall l op, op <> OpAnd -> (forall o, In o l -> match o with MObsOp _ _ => False | _ => True end) ->
+  same_obs op (one_or (MObsOp OpAnd) l) = None.
+Proof.
+  intros l op Hop H. destruct l as [|a [|b r]]; cbn [one_or same_obs].
+  - destruct op; try reflexivity; congruence.
+  - specialize (H a (or_introl eq_refl)). destruct a; try reflexivity; contradiction.
+  - destruct op; try reflexivity; congruence.
+Qed.
+
+Lemma oand_list_plain : forall a o, In o (mc_oand_list a) -> match o with MObsOp _ _ => False | _ => True end.
+Proof.
+  induction a as [x|l IH x]; cbn [mc_oand_list]; intros o H.
+  - destruct H as [H|[]]. subst o. apply mc_obs_not_obsop.
+  - apply in_app_or in H. destruct H as [H|[H|[]]]; [apply IH; exact H|subst o; apply mc_obs_not_obsop].
+Qed.
+
+Lemma splice_oor : forall first a1 rest, ao_inv first -> lift_oor first = Some a1 ->
+  splice_first (same_obs OpOr) (ao_meaning first :: rest) = mc_oor_list a1 ++ rest.
+Proof.
+  intros [o|a|a|a] a1 rest Hi Hl; cbn in Hl; inversion Hl; subst a1; cbn [ao_meaning splice_first].
+  - pose proof (mc_obs_not_obsop o) as N. cbn [mc_oor_list mc_oand_list one_or]. destruct (mc_obs o); try reflexivity. contradiction.
+  - cbn [mc_oor_list]. rewrite (one_or_and_not (mc_oand_list a) OpOr ltac:(discriminate) (oand_list_plain a)). reflexivity.
+  - destruct a as [x|l x]; [contradiction|]. cbn [mc_oor_list].
+    rewrite (one_or_snoc _ (MObsOp OpOr) _ _ (mc_oor_list_nonnil l)). reflexivity.
+Qed.
+
+Lemma same_fb_or : forall l, (forall o, In o l -> same_obs OpFb o = None) -> same_obs OpFb (one_or (MObsOp OpOr) l) = None.
+Proof.
+  intros l H. destruct l as [|a [|b r]]; cbn [one_or same_obs]; try reflexivity. apply H. left. reflexivity.
+Qed.
+
+Lemma oor_list_notfb : forall a o, In o (mc_oor_list a) -> same_obs OpFb o = None.
+Proof.
+  induction a as [x|l IH x]; cbn [mc_oor_list]; intros o H.
+  - destruct H as [H|[]]. subst o. apply one_or_and_not; [discriminate|apply oand_list_plain].
+  - apply in_app_or in H. destruct H as [H|[H|[]]]; [apply IH; exact H|subst o; apply one_or_and_not; [discriminate|apply oand_list_plain]].
+Qed.
+
+Lemma splice_fb : forall first rest, ao_inv first ->
+  splice_first (same_obs OpFb) (ao_meaning first :: rest) = mc_fb_list (lift_fb first) ++ rest.
+Proof.
+  intros [o|a|a|a] rest Hi; cbn [ao_meaning splice_first lift_fb mc_fb_list].
+  - pose proof (mc_obs_not_obsop o) as N. cbn [mc_oor_list mc_oand_list one_or]. destruct (mc_obs o); try reflexivity. contradiction.
+  - cbn [mc_oor_list one_or]. rewrite (one_or_and_not (mc_oand_list a) OpFb ltac:(discriminate) (oand_list_plain a)). reflexivity.
+  - rewrite (same_fb_or (mc_oor_list a) (oor_list_notfb a)). reflexivity.
+  - destruct a as [x|l x]; [contradiction|]. cbn [mc_fb_list].
+    rewrite (one_or_snoc _ (MObsOp OpFb) _ _ (mc_fb_list_nonnil l)). reflexivity.
+Qed.
+
+Lemma cpd_good : forall op ops, Forall PGood ops -> PGood (ECompound op ops).
+Proof.
+  intros op ops HF u U A. cbn [unv] in U. cbn [aprint] in A.
+  destruct ops as [|x1 [|x2 xs]].
+  - discriminate U.
+  - cbn [map] in U. destruct (as_obs (unv x1)); discriminate U.
+  - cbn [map] in U. destruct (as_obs (unv x1)) as [first|] eqn:E1; [|discriminate U].
+    inversion HF as [|? ? H1 HF2]; subst. inversion HF2 as [|? ? H2 HFs]; subst.
+    cbn [forallb] in A. apply andb_true_iff in A. destruct A as [A1 A]. apply andb_true_iff in A. destruct A as [A2 As].
+    apply as_obs_some in E1.
+    destruct (H1 _ E1 A1) as [F1 [F2 [F3 [F4 [F5 F6]]]]].
+    cbn [u_wf u_yield u_meaning u_inv u_sem u_sv u_rt] in F1, F2, F3, F4, F6.
+    assert (Vshape : vexpr (ECompound op (x1 :: x2 :: xs)) = true ->
+              xs = [] /\ vexpr x1 = true /\ vexpr x2 = true).
+    { intros V. cbn [vexpr] in V. destruct xs; [|discriminate V].
+      apply andb_true_iff in V. destruct V as [V _]. apply andb_true_iff in V. destruct V as [V _].
+      apply andb_true_iff in V. destruct V as [V1 V2]. repeat split; assumption. }
+    destruct op.
+    + (* AND *)
+      destruct (lift_oand first) as [a1|] eqn:L1; [|discriminate U].
+      destruct (chain_oand a1 _) as [r|] eqn:C; [|discriminate U]. inversion U; subst u; clear U.
+      cbn [chain_oand] in C. destruct (as_obs (unv x2)) as [c2|] eqn:E2; [|discriminate C].
+      destruct (lift_obs c2) as [o2|] eqn:L2; [|discriminate C]. apply lift_obs_facts in L2. subst c2.
+      apply as_obs_some in E2.
+      destruct (H2 _ E2 A2) as [S1 [S2 [S3 [_ [S5 S6]]]]].
+      cbn [u_wf u_yield u_meaning u_inv u_sem u_sv u_rt ao_wf ao_yield ao_meaning ao_sem ao_sv] in S1, S2, S3, S6.
+      destruct (lift_oand_facts first a1 F4 L1) as [La1 [La2 [La3 [La4 La5]]]].
+      destruct (chain_oand_good xs a1 o2 r HFs As C) as [I1 [I2 [I3 [I4 I5]]]].
+      unfold Good. cbn [u_wf u_yield u_meaning u_inv u_level u_sem u_sv u_rt ao_wf ao_yield ao_meaning ao_sem ao_sv level pr obsop_tok].
+      split; [apply I1; cbn [wf_oand]; rewrite La2, F1, S1; reflexivity|].
+      split; [rewrite I2, toks_pr_ops; cbn [yield_oand]; rewrite La1, F2, S2; reflexivity|].
+      split; [rewrite ma_cpd; cbn [map]; rewrite <- F3, (splice_oand first a1 _ F4 L1), I3;
+              cbn [mc_oand_list]; rewrite S3, <- !app_assoc; cbn [List.app];
+              rewrite (one_or_two _ (MObsOp OpAnd) _ _ _ (mc_oand_list_nonnil a1)); reflexivity|].
+      split; [destruct I4 as [l [p Er]]; rewrite Er; exact I|].
+      split; [reflexivity|].
+      intros V. destruct (Vshape V) as [Ex [V1 V2]]. subst xs. rewrite (I5 eq_refl).
+      destruct (F6 V1) as [T1 [T2 _]]. destruct (S6 V2) as [T4 [T5 _]].
+      cbn [sem_oand sv_oand a_rt]. rewrite La5, La4, T1, T2, T4, T5. repeat split; reflexivity.
+    + (* OR *)
+      destruct (lift_oor first) as [a1|] eqn:L1; [|discriminate U].
+      destruct (chain_oor a1 _) as [r|] eqn:C; [|discriminate U]. inversion U; subst u; clear U.
+      cbn [chain_oor] in C. destruct (as_obs (unv x2)) as [c2|] eqn:E2; [|discriminate C].
+      destruct (lift_oand c2) as [a2|] eqn:L2; [|discriminate C].
+      apply as_obs_some in E2.
+      destruct (H2 _ E2 A2) as [S1 [S2 [S3 [S4 [S5 S6]]]]].
+      cbn [u_wf u_yield u_meaning u_inv u_sem u_sv u_rt] in S1, S2, S3, S4, S6.
+      destruct (lift_oor_facts first a1 F4 L1) as [La1 [La2 [La3 [La4 La5]]]].
+      destruct (lift_oand_facts c2 a2 S4 L2) as [Lb1 [Lb2 [Lb3 [Lb4 Lb5]]]].
+      destruct (chain_oor_good xs a1 a2 r HFs As C) as [I1 [I2 [I3 [I4 I5]]]].
+      unfold Good. cbn [u_wf u_yield u_meaning u_inv u_level u_sem u_sv u_rt ao_wf ao_yield ao_meaning ao_sem ao_sv level pr obsop_tok].
+      split; [apply I1; cbn [wf_oor]; rewrite La2, Lb2, F1, S1; reflexivity|].
+      split; [rewrite I2, toks_pr_ops; cbn [yield_oor]; rewrite La1, Lb1, F2, S2; reflexivity|].
+      split; [rewrite ma_cpd; cbn [map]; rewrite <- F3, (splice_oor first a1 _ F4 L1), I3;
+              cbn [mc_oor_list]; rewrite Lb3, S3, <- !app_assoc; cbn [List.app];
+              rewrite (one_or_two _ (MObsOp OpOr) _ _ _ (mc_oor_list_nonnil a1)); reflexivity|].
+      split; [destruct I4 as [l [p Er]]; rewrite Er; exact I|].
+      split; [reflexivity|].
+      intros V. destruct (Vshape V) as [Ex [V1 V2]]. subst xs. rewrite (I5 eq_refl).
+      destruct (F6 V1) as [T1 [T2 _]]. destruct (S6 V2) as [T4 [T5 _]].
+      cbn [sem_oor sv_oor a_rt]. rewrite La5, La4, Lb5, Lb4, T1, T2, T4, T5. repeat split; reflexivity.
+    + (* FOLLOWEDBY *)
+      destruct (chain_fb (lift_fb first) _) as [r|] eqn:C; [|discriminate U]. inversion U; subst u; clear U.
+      cbn [chain_fb] in C. destruct (as_obs (unv x2)) as [c2|] eqn:E2; [|discriminate C].
+      destruct (lift_oor c2) as [a2|] eqn:L2; [|discriminate C].
+      apply as_obs_some in E2.
+      destruct (H2 _ E2 A2) as [S1 [S2 [S3 [S4 [S5 S6]]]]].
+      cbn [u_wf u_yield u_meaning u_inv u_sem u_sv u_rt] in S1, S2, S3, S4, S6.
+      destruct (lift_fb_facts first F4) as [La1 [La2 [La3 [La4 La5]]]].
+      destruct (lift_oor_facts c2 a2 S4 L2) as [Lb1 [Lb2 [Lb3 [Lb4 Lb5]]]].
+      destruct (chain_fb_good xs (lift_fb first) a2 r HFs As C) as [I1 [I2 [I3 [I4 I5]]]].
+      unfold Good. cbn [u_wf u_yield u_meaning u_inv u_level u_sem u_sv u_rt ao_wf ao_yield ao_meaning ao_sem ao_sv level pr obsop_tok].
+      split; [apply I1; cbn [wf_fb]; rewrite La2, Lb2, F1, S1; reflexivity|].
+      split; [rewrite I2, toks_pr_ops; cbn [yield_fb]; rewrite La1, Lb1, F2, S2; reflexivity|].
+      split; [rewrite ma_cpd; cbn [map]; rewrite <- F3, (splice_fb first _ F4), I3;
+              cbn [mc_fb_list]; rewrite Lb3, S3, <- !app_assoc; cbn [List.app];
+              rewrite (one_or_two _ (MObsOp OpFb) _ _ _ (mc_fb_list_nonnil (lift_fb first))); reflexivity|].
+      split; [destruct I4 as [l [p Er]]; rewrite Er; exact I|].
+      split; [reflexivity|].
+      intros V. destruct (Vshape V) as [Ex [V1 V2]]. subst xs. rewrite (I5 eq_refl).
+      destruct (F6 V1) as [T1 [T2 _]]. destruct (S6 V2) as [T4 [T5 _]].
+      cbn [sem_fb sv_fb a_rt]. rewrite La5, La4, Lb5, Lb4, T1, T2, T4, T5. repeat split; reflexivity.
+Qed.
+
+Theorem unv_good : forall a, PGood a.
+Proof.
+  apply aexpr_ind'.
+  - apply cmp_good.
+  - apply bool_good.
+  - apply obs_good.
+  - apply cpd_good.
+  - apply paren_good.
+  - intros x q H. apply qualified_good. exact H.
 Qed.
